@@ -140,7 +140,7 @@ def main():
                       'handshake, timeouts and transport I/O errors are exercised by the harness only',
                       'RC-S380 response frames are not validated by the code (no checksum check); only the '
                       'command frame construction is in the model, as the property states']
-    ck.coq(gen=['Crc', 'FramesK'], targets=['Proofs/CrcCheck.vo', 'Proofs/Frames2.vo', 'Bridge/Crc.vo', 'Bridge/FramesK.vo', 'Bridge/FramesP.vo', 'Bridge/FramesA.vo'], props='C14')
+    ck.coq(gen=['Crc', 'FramesK', 'CrcPathK'], targets=['Proofs/CrcCheck.vo', 'Proofs/Frames2.vo', 'Bridge/Crc.vo', 'Bridge/FramesK.vo', 'Bridge/FramesP.vo', 'Bridge/FramesA.vo', 'Proofs/CrcPath.vo', 'Bridge/CrcPathK.vo'], props='C14')
     mr = ck.model()
     rng = ck.rng
     quick = ck.tier == 'quick'
@@ -325,6 +325,91 @@ def main():
               fr[8:8 + n] == data and (sum(data) + fr[8 + n]) % 256 == 0 and fr[9 + n:] == b'\x00')
         if not ok:
             ck.violation('rcs380-build-malformed', 'RC-S380 command frame is not well formed', {'data': hx(data), 'frame': hx(fr)})
+
+    # ------------------------------------------------------------------ who verifies CRC_A (PN53x family, Type A targets)
+    # register-level fake chipset: RxCRCEn (CIU_RxMode bit 7) set -> the chip checks and strips CRC_A (CRC error =
+    # chip error 02h), cleared -> the raw frame is handed over.  Every driver class x every SEL_RES x good/corrupted.
+    import logging
+    import nfc.clf.pn53x as PX
+    drivers = []
+    for mod in ('pn531', 'pn532', 'pn533', 'rcs956', 'acr122', 'arygon'):
+        try:
+            m_ = __import__('nfc.clf.' + mod, fromlist=['Device'])
+            if issubclass(m_.Device, PX.Device):
+                drivers.append((mod, m_.Device))
+        except Exception:   # noqa (a driver module that cannot be imported here is not covered)
+            pass
+
+    class FakeChip(object):
+        Error = PX.Chipset.Error
+        in_list_passive_target_brty_range = (0, 1, 2, 3, 4)
+
+        def __init__(self, sel, rf, rxmode0):
+            self.reg = {'CIU_RxMode': rxmode0}
+            self.sel, self.rf = sel, rf
+
+        def read_register(self, *names):
+            vals = [self.reg.get(n, 0) for n in names]
+            return vals if len(vals) > 1 else vals[0]
+
+        def write_register(self, *args):
+            if len(args) == 2 and isinstance(args[0], str):
+                args = (args,)
+            for n_, v_ in args:
+                self.reg[n_] = v_
+
+        def rf_configuration(self, *a):
+            pass
+
+        def in_list_passive_target(self, max_tg, brty, uid):
+            return bytearray([0x44, 0x00, self.sel, 4, 1, 2, 3, 4])
+
+        def in_communicate_thru(self, data, timeout):
+            if self.reg['CIU_RxMode'] & 0x80:
+                ref = crc_bitserial(self.rf[:-2], 0x6363)
+                if self.rf[-2:] != bytes([ref & 255, ref >> 8]):
+                    raise PX.Chipset.Error(0x02, 'CRC error')
+                return bytearray(self.rf[:-2])
+            return bytearray(self.rf)
+
+    def type_a_exchange(cls, sel, rf, rxmode0):
+        d = object.__new__(cls)
+        d.chipset = FakeChip(sel, rf, rxmode0)
+        d.log = logging.getLogger('c14.fake')
+        try:
+            t = d.sense_tta(nfc.clf.RemoteTarget('106A'))
+            return 'ok ' + hexarg(bytes(d.send_cmd_recv_rsp(t, b'\x30\x00', 0.1)))
+        except nfc.clf.TransmissionError:
+            return 'err TransmissionError'
+        except nfc.clf.TimeoutError:
+            return 'err TimeoutError'
+        except (IndexError, TypeError, ValueError, AttributeError, AssertionError) as e:
+            return 'crash ' + type(e).__name__
+
+    sels = list(range(256)) if not quick else sorted(set([0x00, 0x04, 0x08, 0x09, 0x18, 0x20, 0x28, 0x40, 0x60, 0x88, 0xFF] +
+                                                         [rng.randrange(256) for _ in range(24)]))
+    for mod, cls in drivers:
+        for sel in sels:
+            for n in ((1, 4, 16) if quick else (1, 2, 4, 16, 18, 64)):
+                payload = bytes(rng.randrange(256) for _ in range(n))
+                ref = crc_bitserial(payload, 0x6363)
+                good = payload + bytes([ref & 255, ref >> 8])
+                i = rng.randrange(len(good))
+                frames = [good, good[:i] + bytes([good[i] ^ (1 << rng.randrange(8))]) + good[i + 1:],
+                          payload + bytes([rng.randrange(256), rng.randrange(256)])]
+                for rf in frames:
+                    rxmode0 = rng.choice([0x80, 0x88, 0x8A, 0xFF])
+                    r = type_a_exchange(cls, sel, rf, rxmode0)
+                    add('type_a_rsp %s %d %s' % (hexarg(bytes([sel])), rxmode0, hexarg(rf)), r, 'type-a-crc:' + mod, ('ta', mod, sel, rf), rf != good)
+                    rr = crc_bitserial(rf[:-2], 0x6363)
+                    right = rf[-2:] == bytes([rr & 255, rr >> 8])
+                    if r.startswith('ok') and not (right and r == 'ok ' + hexarg(rf[:-2])):
+                        ck.violation('type-a-crc-not-verified:' + mod, 'a Type A response with a wrong CRC_A (or with the CRC still attached) is returned '
+                                     'as data: neither the chip (RxCRCEn cleared by sense_tta) nor the driver verified it',
+                                     {'driver': mod, 'sel_res': '%02x' % sel, 'rf_frame': hx(rf), 'returned': r})
+                    if right and not r.startswith('ok'):
+                        ck.violation('type-a-crc-good-rejected:' + mod, 'a Type A response with the right CRC_A is not returned', 
+                                     {'driver': mod, 'sel_res': '%02x' % sel, 'rf_frame': hx(rf), 'result': r})
 
     # ------------------------------------------------------------------ model run + compare
     out = mr.run(lines)
